@@ -310,7 +310,7 @@ class PG:
     def site_nodes(self, block):
         return self.by_block.get(block, [])
 
-    def guarded(self, site_at, ok_edge, kill_block=None, start_held=False):
+    def guarded(self, site_at, ok_edge, kill_block=None, start_held=False, assume=None):
         """True iff on every path from entry to the site an edge accepted by ok_edge(lits) has been
         passed and no later block (or earlier statement of the site's block) is a kill.
         Returns (ok, witness) where witness is a list of blocks of an unguarded path."""
@@ -332,6 +332,8 @@ class PG:
                 kill_cache[bi] = kb(bi, None)
             hout = held and not kill_cache[bi]
             for m, lits in self.edges[n] or []:
+                if assume and any(contradicts(self.facts, a, l) for a in assume for l in lits):
+                    continue
                 h2 = True if (lits and ok_edge(lits)) else hout
                 s2 = (m, h2)
                 if s2 not in seen:
